@@ -1544,23 +1544,42 @@ def gen_SdkDescend(repo: Any) -> str:
     gen_class = next((n for n in tree.body if isinstance(n, ast.FunctionDef) and n.name == "_generate_class"), None)
     if gen_class is None:
         raise ExtractError("_generate_class not found")
+    # The dispatch methods are written in _generate_class itself or in module-level helpers it calls: a helper which
+    # (transitively) writes one of the four `def accept…/transform…` blocks is read as if its body stood at the call.
+    from harness import extract as _extract
+
+    dispatch_heads = ("def accept", "def accept_with_context", "def transform", "def transform_with_context")
+
+    def head_of(n: ast.AST) -> Optional[str]:
+        if isinstance(n, ast.JoinedStr):
+            try:
+                first = fstr(n).lstrip().split("(")[0]
+            except ExtractError:
+                return None
+            return first if first in dispatch_heads else None
+        return None
+
+    def writes_dispatch(g: ast.FunctionDef) -> bool:
+        return any(head_of(n) is not None for scope in _extract._reachable_functions(tree, g) for n in ast.walk(scope))
+
+    gen_class_nodes = _extract.nodes_in_execution_order(tree, gen_class, writes_dispatch)
     # name templates: Identifier(f"visit_{cls.name}") etc. in source order
     idents = []
-    for n in ast.walk(gen_class):
+    for i, n in enumerate(gen_class_nodes):
         if isinstance(n, ast.Call) and ast.unparse(n.func) == "Identifier" and n.args and isinstance(n.args[0], ast.JoinedStr):
-            idents.append((n.lineno, n.col_offset, fstr(n.args[0])))
+            idents.append((i, 0, fstr(n.args[0])))
     idents_s = [t for _, _, t in sorted(idents)]
     # the method definitions and the call they make, from the Stripped(f"""...""") blocks
     blocks = []
-    for n in ast.walk(gen_class):
+    for i, n in enumerate(gen_class_nodes):
         if isinstance(n, ast.JoinedStr):
             text = fstr(n)
             first = text.lstrip().split("(")[0]
-            if first in ("def accept", "def accept_with_context", "def transform", "def transform_with_context"):
+            if first in dispatch_heads:
                 last = [ln.replace("{II}", "").replace("{I}", "").strip() for ln in text.strip().split("\n")]
                 last = [ln for ln in last if ln]
                 call = last[-2] + last[-1] if last[-1].startswith("self, context)") else last[-1]
-                blocks.append((n.lineno, first[4:], call))
+                blocks.append((i, first[4:], call))
     blocks_s = [(a, b) for _, a, b in sorted(blocks)]
     if [a for a, _ in blocks_s] != list(KINDS):
         raise ExtractError(f"dispatch methods not found in order: {blocks_s}")
